@@ -272,6 +272,9 @@ type scenario struct {
 	// ArgShape != "": the entry point's main path argument (the source tree or the big file) is replaced by a path of
 	// another shape; such scenarios are only run with the context already done at the call
 	ArgShape string
+	// Func != nil: a package-level context-accepting function instead of a method of the filesystem (called with the
+	// context and the sandbox; a second, un-hooked in-memory filesystem is the other side of a cross-filesystem call)
+	Func func(ctx context.Context, x *sandbox) error
 }
 
 // argShapes: what the main path argument may be instead of what the entry point expects.
@@ -368,6 +371,16 @@ func scenarios() []scenario {
 		{Name: "RemoveWithContext/link-to-file", Method: "RemoveWithContext", OSOnly: true, Args: func(x *sandbox) []any { return []any{filepath.Join(x.root, "lnk-file")} }, B: bRemove, M: mFew},
 		{Name: "RemoveWithContext/dangling-link", Method: "RemoveWithContext", OSOnly: true, Args: func(x *sandbox) []any { return []any{filepath.Join(x.root, "lnk-dangling")} }, B: bRemove, M: mFew},
 		{Name: "RemoveWithContextAndExclusionPatterns/link-to-directory", Method: "RemoveWithContextAndExclusionPatterns", OSOnly: true, Args: func(x *sandbox) []any { return []any{filepath.Join(x.root, "lnk-dir")} }, B: bRemove, M: mFew},
+		// package-level functions that work across two filesystems (the source is the hooked one)
+		{Name: "pkg.MoveBetweenFS", Method: "MoveWithContext", B: bMove, M: mFew, Func: func(ctx context.Context, x *sandbox) error {
+			return filesystem.MoveBetweenFS(ctx, x.fs, x.S, filesystem.NewFs(filesystem.InMemoryFS), "/moved")
+		}},
+		{Name: "pkg.CopyBetweenFS", Method: "CopyWithContext", B: bCopy, M: mFew, Func: func(ctx context.Context, x *sandbox) error {
+			return filesystem.CopyBetweenFS(ctx, x.fs, x.S, filesystem.NewFs(filesystem.InMemoryFS), "/copied")
+		}},
+		{Name: "pkg.CopyBetweenFSWithExclusionPatterns", Method: "CopyWithContextAndExclusionPatterns", B: bCopy, M: mFew, Func: func(ctx context.Context, x *sandbox) error {
+			return filesystem.CopyBetweenFSWithExclusionPatterns(ctx, x.fs, x.S, filesystem.NewFs(filesystem.InMemoryFS), "/copied")
+		}},
 		{Name: "WalkWithContext", Args: func(x *sandbox) []any { return []any{x.S, noop} }, B: bWalk, M: mFew},
 		{Name: "WalkWithContextAndExclusionPatterns", Args: func(x *sandbox) []any { return []any{x.S, noop} }, B: bWalk, M: mFew},
 		{Name: "LsRecursive", Args: func(x *sandbox) []any { return []any{x.S, true} }, B: bWalk, M: mFew},
@@ -550,6 +563,31 @@ func execRun(sc *scenario, spec runSpec) (res runResult, engineErr error) {
 	method := sc.Method
 	if method == "" {
 		method = sc.Name
+	}
+	if sc.Func != nil {
+		if spec.Pre {
+			res.before = x.dump()
+		}
+		hook.mu.Lock()
+		hook.armed = true
+		hook.mu.Unlock()
+		func() {
+			defer func() {
+				if p := recover(); p != nil {
+					res.panicked = fmt.Sprint(p)
+				}
+			}()
+			res.err = sc.Func(ctx, x)
+		}()
+		hook.mu.Lock()
+		hook.armed = false
+		res.total, res.mutating, res.after, res.afterMut, res.fired = hook.count, hook.mut, hook.after, hook.amut, hook.fired
+		res.afterOps = hook.afterOps
+		hook.mu.Unlock()
+		if spec.Pre {
+			res.afterDmp = x.dump()
+		}
+		return res, nil
 	}
 	mv := reflect.ValueOf(x.fs).MethodByName(method)
 	if !mv.IsValid() {
